@@ -109,6 +109,7 @@ type FnTrans struct {
 	assumpTerms []string
 	knownRefs map[string]bool
 	strPairs map[string]bool
+	strTerms map[string]bool
 	allowedMods map[string]bool // nil: no component-level frame check
 	skCache map[string]string
 	f64bitsCache map[string]string
@@ -1688,6 +1689,15 @@ func (t *FnTrans) modifiesComps(callee *ssa.Function, con *Contract) ([]string, 
 			return nil, false
 		case item == "allbytes":
 			res = append(res, "B."+t.sortKey(types.Typ[types.Uint8]))
+		case strings.HasPrefix(item, "mapof(") && strings.HasSuffix(item, ")"):
+			pt := paramType(strings.TrimSpace(item[len("mapof(") : len(item)-1]))
+			if pt == nil {
+				return nil, false
+			}
+			if _, ok := pt.Underlying().(*types.Map); !ok {
+				return nil, false
+			}
+			res = append(res, "M:"+typeKey(pt))
 		case strings.HasPrefix(item, "ghostseq("):
 			res = append(res, "GA."+strings.Trim(strings.TrimSuffix(strings.TrimPrefix(item, "ghostseq("), ")"), "\" "))
 		case strings.HasPrefix(item, "ghostat("):
